@@ -117,12 +117,13 @@ def c12(F, R, tier):
     e_typed_props.run_c12(F, R)
 
 
-@register('C10', 'proof',
-          'Proof of superposition in real arithmetic: by linearity typing of the value graph every float computed by the 8 '
+@register('C10', 'other',
+          'Linearity clause: proof of superposition in real arithmetic: by linearity typing of the value graph every float computed by the 8 '
           'linear views is a linear form in the inputs with input-independent coefficients, no constant term is added and no '
           'branch/comparison depends on data (integer/readiness guards only); by structural induction over the body and the '
           'sequence of updates view(a·x+b·y) = a·view(x)+b·view(y). Unit DC gain of Sma/Alma/Cumulative windows from the '
-          'accumulator structure; DC gain / pole clauses of the recursive members are checked numerically under C09/C11.')
+          'accumulator structure; DC gain of the recursive members is evaluated numerically from the extracted steady-state system for the '
+          'enumerated N. Level "other" rather than "proof" because the DC clause has a known finding (CyberCycle N = 4, 5) and is enumerated, not symbolic.')
 def c10(F, R, tier):
     e_typed_props.run_c10(F, R)
     from . import e_lti_props
